@@ -10,7 +10,7 @@ import itertools
 
 from lib import common
 
-THEOREMS_TIED = ["C18_window_bound", "C18_refused_only_when_full", "C18_exempt", "C18_specific_precedence"]
+THEOREMS_TIED = ["C18_window_bound", "C18_refused_only_when_full", "C18_exempt", "C18_specific_precedence", "C18_cleanup_threshold_covers", "C18_window_bound_with_cleanup"]
 
 INTERVAL_NAMES = {1: ["s", "second", "sec", "S"], 60: ["m", "minute", "min"], 3600: ["h", "hour", "hr"]}
 ADDRS4 = ["1.2.3.4", "5.6.7.8", "10.0.0.1"]
@@ -233,9 +233,6 @@ def oracle(report, options, parsed, ops, history, lim, clock):
                     cnt = sum(1 for t in lst if now - t < interval)
                     if cnt > n:
                         cls = None
-                        if key.startswith("specific:") and any(
-                                cl <= now and cl > t0 for cl in cleanups for t0 in lst[:-1] if now - t0 < interval):
-                            cls = "rl-cleanup-clears-specific"
                         report.property_failure(
                             "%d messages %s %s admitted within %d (limit %d) up to t=%d" % (cnt, a, c, interval, n, now),
                             replay, cls)
